@@ -8,7 +8,7 @@ COMPONENTS = {"real": ["CSVWorkloadReader", "WorkloadTrace", "WorkloadGenerator"
 RULE_TEXT = ("CMP driver: seeded traces (1..50 pipelines, on/off-grid decimal arrivals, equal arrivals, gaps of millions "
              "of ticks with discrete-event clock jumps, arrivals beyond the end) replayed through the real reader and "
              "WorkloadTrace; grid sweeps of consecutive ticks; gentrace round trips of the real generator. Non-trivial = "
-             "the trace contains on-grid, in-band, equal or beyond-end arrivals; distinct = distinct (tick rate, length, arrivals)")
+             "the trace contains on-grid, in-band, equal or beyond-end arrivals; big family: traces of 1-25 MiB (15 000 - 255 000 pipelines); distinct = distinct (tick rate, length, arrivals)")
 claims = base.prefix_claims("C13.")
 WANT_PROBES = ["on_grid", "in_band", "beyond_end", "equal_arrivals", "jumps"]
 
@@ -24,6 +24,8 @@ def make(family, rng, tier):
                                                 "interactive_prob": 0.3, "query_prob": 0.1, "batch_prob": 0.6}}
     if family == "trace":
         return tracecmp.gen_trace(rng, avoid_known=rng.random() < 0.95)
+    if family == "big":
+        return tracecmp.gen_bigtrace(rng, tier)
     if family == "grid":
         return tracecmp.gen_gridsweep(rng, tier)
     return {"kind": "roundtrip", "params": tracecmp.gen_params(rng)}
@@ -38,7 +40,7 @@ def execute(scn, rng):
 def plan(tier):
     q = tier == "quick"
     return [("trace", 6000 if q else 100000), ("grid", 96 if q else 480), ("roundtrip", 400 if q else 8000),
-            ("aimD9a", 8), ("aimD9b", 8)]
+            ("aimD9a", 8), ("aimD9b", 8), ("big", 8 if q else 64)]
 
 
 def sample(scn, out):
@@ -53,6 +55,13 @@ def sample(scn, out):
 def shrink_candidates(scn):
     import copy
     if scn.get("kind") != "trace":
+        return
+    if scn.get("big"):
+        for f in (2, 4, 16):
+            s = copy.deepcopy(scn)
+            s["big"]["n"] = max(1, scn["big"]["n"] // f)
+            s["nticks"] = s["big"]["n"] // s["big"]["per_tick"] + 2
+            yield s
         return
     n = len(scn["arrivals"])
     # halves first, then single pipelines
